@@ -87,4 +87,24 @@ theorem importStart_token_one_line (hg : Good inp) (l : L) (h : SInv inp l) (ho 
       · simp [ho] at h'
       · rw [h']; exact acceptUntil_no_lf hg _ _ h1 h10
 
+/-- **package clause**: the package token `lexPackage` delivers is free of line feeds -/
+theorem package_token_one_line (hg : Good inp) (l : L) (h : SInv inp l) (ho : l.out = [])
+    (h10 : (10 : Nat) ∈ Gen.lexPackage_acceptUntil1) :
+    ∀ t ∈ (lexPackage l).1.out, t.typ = .package → countNl t.lit = 0 := by
+  unfold lexPackage
+  simp only []
+  split
+  · intro t ht; simp [ho] at ht
+  · have h1 := snil_skipRun hg.wf _ Gen.lexPackage_skipRun0 (snil_ignore _ (tinv_acceptUntil _ Gen.lexPackage_acceptUntil0 h.1))
+    have ho1 : ((l.acceptUntil Gen.lexPackage_acceptUntil0).ignore.skipRun Gen.lexPackage_skipRun0).out = [] := by simp [ho]
+    split
+    · intro t ht hty
+      rcases errorf_typ _ _ t ht with h' | h'
+      · rw [acceptUntil_out, ho1] at h'; cases h'
+      · rw [h'] at hty; cases hty
+    · intro t ht _
+      rcases emit_lit _ _ t ht with h' | h'
+      · rw [acceptUntil_out, ho1] at h'; cases h'
+      · rw [h']; exact acceptUntil_no_lf hg _ _ h1 h10
+
 end GL
